@@ -635,7 +635,11 @@ pub fn jobs(tier: Tier, full: bool) -> Vec<Job> {
 pub fn main(ctx: &Ctx, prop: Prop) -> ! {
     let stats = Stats { execs: AtomicU64::new(0), outcomes: Mutex::new(BTreeSet::new()), sink_calls_checked: AtomicU64::new(0), collected: AtomicU64::new(0) };
     let mut js = jobs(ctx.tier, prop != Prop::C02);
-    let budget = if prop == Prop::C18 { ctx.tier.pick(52.0, 1200.0) } else { ctx.tier.pick(40.0, 900.0) };
+    // quick: every job is bounded by its depth, which is a deterministic amount of work; the wall-clock budget is
+    // only a safety net (about ten times what the jobs need on an idle 16-core machine) so that the evidence of a
+    // quick run does not depend on how fast or how loaded the machine is. thorough: the deep jobs are cut by the
+    // budget, and say so (capped_by: max_secs)
+    let budget = if prop == Prop::C18 { ctx.tier.pick(480.0, 1200.0) } else { ctx.tier.pick(400.0, 900.0) };
     let mut env = Env::default();
     env.invariants = prop == Prop::C04;
     env.gc = prop == Prop::C18;
